@@ -14,7 +14,12 @@ def pairsOfJson (j : Json) : Option (List (Nat × Nat)) := do
 def pairsToJson (l : List (Nat × Nat)) : Json :=
   Json.arr (l.map (fun p => ofNats [p.1, p.2])).toArray
 
-/-- `angle.spec`   {E,r,t}     ↦ {"l": [[n,d],…] | null}   the function with the exact choice of d
+def angleCmdJ : Angle.Cmd → Json
+  | .setQ reg vq => Json.arr #["set", toJson reg, toJson vq]
+  | .rot axis reg n d => Json.arr #["rot", toJson axis, toJson reg, toJson n, toJson d]
+
+/-- `angle.emit`   {E,r,t,axis,vq} ↦ {"cmds": [["set",reg,vq],["rot",axis,reg,n,d],…] | null}
+    `angle.spec`   {E,r,t}     ↦ {"l": [[n,d],…] | null}   the function with the exact choice of d
     `angle.accepts` {E,r,t,l}  ↦ {"ok": bool}              is l the output of some allowed run -/
 def handleAngle (op : String) (j : Json) : Option Json :=
   if op == "angle.spec" then do
@@ -28,6 +33,14 @@ def handleAngle (op : String) (j : Json) : Option Json :=
     let t ← (jField? j "t").bind jNat?
     let l ← (jField? j "l").bind pairsOfJson
     pure (Json.mkObj [("ok", Json.bool (Angle.accepts E t 4096 r l))])
+  else if op == "angle.emit" then do
+    let E ← (jField? j "E").bind jNat?
+    let r ← (jField? j "r").bind jNat?
+    let t ← (jField? j "t").bind jNat?
+    let axis ← (jField? j "axis").bind jNat?
+    let vq ← (jField? j "vq").bind jNat?
+    pure (Json.mkObj [("cmds", ofOpt (fun (l : List Angle.Cmd) => Json.arr (l.map angleCmdJ).toArray)
+      (Angle.emitSpec axis vq E t r))])
   else none
 
 end NQ.Drv
